@@ -58,6 +58,13 @@ type vscan struct {
 	f    *vfile
 	cur  string
 	done bool
+	// custom split function (bufio.Scanner.Split): the file's bytes are materialised from the
+	// line model with a nondeterministic end-of-line style and the scanner protocol is emulated
+	split  value
+	data   []value
+	built  bool
+	start  int
+	sawEOF bool
 }
 
 type ioState struct {
@@ -509,8 +516,124 @@ func extOsOpen(fr *frame, args []value) value {
 	return tuple{ex.fabricate(f), nilErr}
 }
 
+// nextModelLine: the next line of the file model (scripted lines, or nondeterministic
+// existence and shape for an arbitrary file).
+func (ex *Exec) nextModelLine(s *vscan) (string, bool) {
+	f := s.f
+	if f.lines != nil {
+		if f.lnRead >= len(f.lines) {
+			return "", false
+		}
+		f.lnRead++
+		return f.lines[f.lnRead-1], true
+	}
+	if !f.arb && f.maxLn == 0 {
+		f.maxLn = 2 // a binary file read as text: up to two arbitrary lines
+	}
+	if f.lnRead >= f.maxLn {
+		return "", false
+	}
+	k := f.lnRead
+	more := ex.Input(fmt.Sprintf("file.line%d.exists", k), smt.Bool)
+	if !ex.branch(more) {
+		return "", false
+	}
+	f.lnRead++
+	shape := ex.Input(fmt.Sprintf("file.line%d.shape", k), smt.Int)
+	ex.assume(ex.C.And(ex.C.Ge(shape, ex.C.IntC(0)), ex.C.Lt(shape, ex.C.IntC(int64(len(lineShapes))))), true)
+	n := ex.concretize(shape)
+	return strings.ReplaceAll(lineShapes[n], "#", fmt.Sprintf("%d", k)), true
+}
+
+// scanSplit emulates bufio.Scanner with a user split function for a file that fits the
+// scanner's buffer: split(data, false) until it asks for more data, then the read hits
+// end of file and split(rest, true) is called (as the real Scanner does). The bytes are the
+// model's lines joined by one end-of-line style (LF, CRLF or CR; file.eol_style) with the
+// last line terminated, unterminated, or ending in a bare CR (file.final_eol).
+func (ex *Exec) scanSplit(fr *frame, s *vscan) value {
+	if !s.built {
+		s.built = true
+		var lines []string
+		for {
+			ln, ok := ex.nextModelLine(s)
+			if !ok {
+				break
+			}
+			lines = append(lines, ln)
+		}
+		pick := func(name string, n int64) int64 {
+			t := ex.Input(name, smt.Int)
+			ex.assume(ex.C.And(ex.C.Ge(t, ex.C.IntC(0)), ex.C.Lt(t, ex.C.IntC(n))), true)
+			return ex.concretize(t)
+		}
+		eol := []string{"\n", "\r\n", "\r"}[pick("file.eol_style", 3)]
+		final := pick("file.final_eol", 3)
+		var sb strings.Builder
+		for i, ln := range lines {
+			sb.WriteString(ln)
+			if i < len(lines)-1 {
+				sb.WriteString(eol)
+			} else {
+				switch final {
+				case 0:
+					sb.WriteString(eol)
+				case 2:
+					sb.WriteString("\r")
+				}
+			}
+		}
+		for _, b := range []byte(sb.String()) {
+			s.data = append(s.data, b)
+		}
+	}
+	if s.done {
+		return false
+	}
+	for loops := 0; loops < 100; loops++ {
+		if s.start < len(s.data) || s.sawEOF {
+			rest := make([]value, len(s.data)-s.start) // cap == len: re-slicing past the data panics as it would on the real buffer's end
+			copy(rest, s.data[s.start:])
+			r := call(fr.i, fr, 0, s.split, []value{rest, s.sawEOF}).(tuple)
+			adv := int(asInt64(r[0]))
+			if e, ok := r[2].(iface); ok && e.t != nil {
+				s.done = true
+				return false
+			}
+			if adv < 0 || adv > len(rest) {
+				panic(targetPanic{"bufio.Scanner: SplitFunc returns advance count beyond input"})
+			}
+			s.start += adv
+			if tok, ok := r[1].([]value); ok && tok != nil {
+				b := make([]byte, len(tok))
+				for i, v := range tok {
+					b[i] = v.(uint8)
+				}
+				s.cur = string(b)
+				return true
+			}
+			if adv > 0 {
+				continue
+			}
+		}
+		if s.sawEOF {
+			s.done = true
+			return false
+		}
+		s.sawEOF = true
+	}
+	panic(Unsupported{"bufio.Scanner emulation: split function makes no progress"})
+}
+
 func init() {
 	for k, v := range map[string]externalFn{
+		"bytes.IndexAny": func(fr *frame, args []value) value {
+			bs := args[0].([]value)
+			b := make([]byte, len(bs))
+			for i, v := range bs {
+				b[i] = v.(uint8)
+			}
+			return strings.IndexAny(string(b), args[1].(string))
+		},
 		"os.Create":             extOsCreate,
 		"os.Open":               extOsOpen,
 		"os.OpenFile":           extOsOpenFile,
@@ -567,41 +690,29 @@ func init() {
 			r := args[0].(iface)
 			return ex.fabricate(&vscan{f: ex.fileOf(r.v)})
 		},
+		"(*bufio.Scanner).Split": func(fr *frame, args []value) value {
+			ex := fr.i.ex
+			ex.impure("Scanner.Split")
+			s := ex.io().byPtr[args[0].(*value)].(*vscan)
+			s.split = args[1]
+			return nil
+		},
 		"(*bufio.Scanner).Scan": func(fr *frame, args []value) value {
 			ex := fr.i.ex
 			ex.impure("Scan")
 			s := ex.io().byPtr[args[0].(*value)].(*vscan)
-			f := s.f
+			if s.split != nil {
+				return ex.scanSplit(fr, s)
+			}
 			if s.done {
 				return false
 			}
-			if f.lines != nil {
-				if f.lnRead >= len(f.lines) {
-					s.done = true
-					return false
-				}
-				s.cur = f.lines[f.lnRead]
-				f.lnRead++
-				return true
-			}
-			if !f.arb && f.maxLn == 0 {
-				f.maxLn = 2 // a binary file read as text: up to two arbitrary lines
-			}
-			if f.lnRead >= f.maxLn {
+			ln, ok := ex.nextModelLine(s)
+			if !ok {
 				s.done = true
 				return false
 			}
-			k := f.lnRead
-			more := ex.Input(fmt.Sprintf("file.line%d.exists", k), smt.Bool)
-			if !ex.branch(more) {
-				s.done = true
-				return false
-			}
-			f.lnRead++
-			shape := ex.Input(fmt.Sprintf("file.line%d.shape", k), smt.Int)
-			ex.assume(ex.C.And(ex.C.Ge(shape, ex.C.IntC(0)), ex.C.Lt(shape, ex.C.IntC(int64(len(lineShapes))))), true)
-			n := ex.concretize(shape)
-			s.cur = strings.ReplaceAll(lineShapes[n], "#", fmt.Sprintf("%d", k))
+			s.cur = ln
 			return true
 		},
 		"(*bufio.Scanner).Text": func(fr *frame, args []value) value {
